@@ -19,6 +19,7 @@ CONSTANTS
   BugRetDoubleCount = FALSE
   BugArgsDoubleRelease = FALSE
   BugExcNotCounted = FALSE
+  BugRetLeavesRest = FALSE
   Depth = 40
 INVARIANT Emit
 CHECK_DEADLOCK FALSE
